@@ -39,6 +39,51 @@ pub enum ValidationMode {
     Fast,
 }
 
+/// Check the variable values of the request against the variable definitions
+/// of the operation that is going to be executed: a value must be of the
+/// declared type and a variable of non-null type without default value must
+/// be provided.
+pub(crate) fn check_variable_values(
+    registry: &Registry,
+    operation: &crate::parser::types::OperationDefinition,
+    variables: &Variables,
+) -> Result<(), Vec<ServerError>> {
+    let mut errors = Vec::new();
+    for def in &operation.variable_definitions {
+        let name = &def.node.name.node;
+        match variables.get(name) {
+            Some(value) => {
+                if let Some(reason) = utils::is_valid_input_value(
+                    registry,
+                    &def.node.var_type.node.to_string(),
+                    value,
+                    crate::context::QueryPathNode {
+                        parent: None,
+                        segment: crate::QueryPathSegment::Name(name),
+                    },
+                ) {
+                    errors.push(ServerError::new(
+                        format!("Invalid value for variable {}", reason),
+                        Some(def.pos),
+                    ));
+                }
+            }
+            None => {
+                if !def.node.var_type.node.nullable && def.node.default_value.is_none() {
+                    errors.push(ServerError::new(
+                        format!(
+                            r#"Variable "${}" of required type "{}" was not provided."#,
+                            name, def.node.var_type.node
+                        ),
+                        Some(def.pos),
+                    ));
+                }
+            }
+        }
+    }
+    if errors.is_empty() { Ok(()) } else { Err(errors) }
+}
+
 pub(crate) fn check_rules(
     registry: &Registry,
     doc: &ExecutableDocument,
